@@ -65,6 +65,11 @@ CLAIMED = {
    note="Assumed: TLSProvider.Ready/MatchedServerName/MatchedALPN are pure reads (spec functions); NewProvider (x509, SDS, hooks) leaves the manager under construction alone; Conn.Peek returns at least one byte on success. Not covered: the handshake itself (forked crypto/tls, chain building), wildcard-label generalisation inside MatchedServerName, upstream verification/insecure_skip.",
    technique="contract-based deductive verification (WP over go/ssa, SMT) against interface contracts with spec functions",
    design="5/C13"),
+ "C09": dict(
+   text="Proof level on the sequential accounting of the HTTP/1 pool, with leased = totalClientCount - len(idle list): getAvailableClient either refuses (leased unchanged) or leases exactly one connection which is then not in the (duplicate-free) idle list; NewStream that hands out no sender leaves leased unchanged (capacity of refused requests is available again) and one that hands out a sender leases exactly one; a finished exchange is returned to the idle list iff its connection is not closed; a locally reset exchange marks its connection to be closed instead of reused.",
+   note="Assumed: newActiveClient (dialing) returns a client iff it reports no failure; client.Close delivers the close event to the pool before OnDestroyStream makes its pooling decision. Not covered: the ping-pong xprotocol pool, binding/multiplex connection state machines, HTTP/2 pool, concurrent histories, real sockets.",
+   technique="contract-based deductive verification (WP over go/ssa, SMT) of representation-invariant style postconditions",
+   design="5/C09"),
 }
 NA = {
  "C11": "quantifies over the arrival time of a signal relative to in-flight requests across two processes (fd passing, drain timers): crash points and schedules of the whole runtime; no function whose pre/postcondition states it (DESIGN.md section 6)",
